@@ -673,7 +673,9 @@ class Sim:
                            'orphans': len([c for c, cs in b.conns.items()
                                            if not cs.in_use and c not in b.conn_stack]),
                            'cur': p._cur_capacity, 'max': p._max_capacity,
-                           'nblocks': len(p._blocks), 'starving': p._is_starving})
+                           'nblocks': len(p._blocks), 'starving': p._is_starving,
+                           'idle_elsewhere': any(len(b2.conn_stack) > 0 for b2 in p._blocks.values()
+                                                 if b2 is not b)})
             st['tick_crashing'] = self.last_tick_crash
             starved.append(st)
         bad_fail = []
